@@ -162,3 +162,21 @@ Definition CFConfigMoves_is_legal_set_firing (self_q_vertex : nat) (self_v_tilde
   else
   PyOk (None, tt) end end) (set_order S_names) (PyOk (None, tt)) with PyExn e_ => PyExn e_ | PyOk (Some r_, tt) => PyOk (r_) | PyOk (None, tt) =>
   PyOk (true) end end end end.
+
+(* chipfiring/CFConfig.py :: CFConfigMoves.__lt__   reads ['self_q_vertex', 'self_graph_vertices', 'self_graph_graph', 'self_v_tilde_vertices', 'self_divisor_degrees'], writes [], may raise *)
+Definition CFConfigMoves___lt__ (self_q_vertex : nat) (self_graph_vertices : list nat) (self_graph_graph : dictD) (self_v_tilde_vertices : list nat) (self_divisor_degrees : dictZ) (set_order : list nat -> list nat) (other_q_vertex : nat) (other_graph_vertices : list nat) (other_graph_graph : dictD) (other_v_tilde_vertices : list nat) (other_divisor_degrees : dictZ) : pyres (unit) bool :=
+  match CFConfigMoves___le__ self_q_vertex self_graph_vertices self_graph_graph self_v_tilde_vertices self_divisor_degrees set_order other_q_vertex other_graph_vertices other_graph_graph other_v_tilde_vertices other_divisor_degrees with PyExn _ => PyExn tt | PyOk t1_ =>
+  if t1_ then
+  match CFConfigMoves___eq__ self_q_vertex self_graph_vertices self_graph_graph self_v_tilde_vertices self_divisor_degrees set_order other_q_vertex other_graph_vertices other_graph_graph other_v_tilde_vertices other_divisor_degrees with PyExn _ => PyExn tt | PyOk t2_ =>
+  PyOk ((negb t2_)) end
+  else
+  PyOk (false) end.
+
+(* chipfiring/CFConfig.py :: CFConfigMoves.__gt__   reads ['self_q_vertex', 'self_graph_vertices', 'self_graph_graph', 'self_v_tilde_vertices', 'self_divisor_degrees'], writes [], may raise *)
+Definition CFConfigMoves___gt__ (self_q_vertex : nat) (self_graph_vertices : list nat) (self_graph_graph : dictD) (self_v_tilde_vertices : list nat) (self_divisor_degrees : dictZ) (set_order : list nat -> list nat) (other_q_vertex : nat) (other_graph_vertices : list nat) (other_graph_graph : dictD) (other_v_tilde_vertices : list nat) (other_divisor_degrees : dictZ) : pyres (unit) bool :=
+  match CFConfigMoves___ge__ self_q_vertex self_graph_vertices self_graph_graph self_v_tilde_vertices self_divisor_degrees set_order other_q_vertex other_graph_vertices other_graph_graph other_v_tilde_vertices other_divisor_degrees with PyExn _ => PyExn tt | PyOk t1_ =>
+  if t1_ then
+  match CFConfigMoves___eq__ self_q_vertex self_graph_vertices self_graph_graph self_v_tilde_vertices self_divisor_degrees set_order other_q_vertex other_graph_vertices other_graph_graph other_v_tilde_vertices other_divisor_degrees with PyExn _ => PyExn tt | PyOk t2_ =>
+  PyOk ((negb t2_)) end
+  else
+  PyOk (false) end.
